@@ -14,6 +14,7 @@ import (
 	"fmt"
 	"os"
 	"sort"
+	"strings"
 	"sync"
 	"time"
 
@@ -199,6 +200,10 @@ func main() {
 		clusterChild()
 		return
 	}
+	if r.Replay != "" {
+		replay(r)
+		return
+	}
 	scratch := common.Scratch("c08")
 	defer os.RemoveAll(scratch)
 	var mu sync.Mutex
@@ -382,4 +387,59 @@ func tailStr(s string, n int) string {
 		return s[len(s)-n:]
 	}
 	return s
+}
+
+// replay re-executes a stored simulated case (deterministic from opts, policy and seed) and re-evaluates the
+// monitors; for a cluster witness it re-reports what the online monitors of that run recorded.
+func replay(r *common.Run) {
+	key, _, wit, err := r.LoadReplay()
+	if err != nil {
+		fmt.Println("cannot read replay file:", err)
+		os.Exit(3)
+	}
+	if wit["setting"] == "cluster" {
+		var recs []map[string]any
+		_ = common.Remarshal(wit["report"], &recs)
+		for _, rec := range recs {
+			if rec["kind"] == "violation" {
+				r.Report(fmt.Sprint(rec["key"]), fmt.Sprint(rec["desc"]), wit)
+			}
+		}
+		r.FinishReplay(key)
+	}
+	var o adapters.RaftOpts
+	_ = common.Remarshal(wit["opts"], &o)
+	seed, _ := wit["seed"].(float64)
+	rs := adapters.Raftkvs(int64(seed), o)
+	name, _ := wit["policy"].(string)
+	steps := 1500
+	if name == "figure-8" {
+		figure8(rs, int64(seed))
+		steps = 3500
+	} else {
+		for _, p := range policies() {
+			if p.name == name {
+				p.apply(rs, int64(seed))
+			}
+		}
+	}
+	capture := strings.HasPrefix(key, "C08:tlc:")
+	if capture {
+		steps = 250
+	}
+	out := rs.Run(steps, capture)
+	for _, v := range out.Violations {
+		r.Report(v.Key, v.Desc, map[string]any{"setting": "sim", "opts": o, "policy": name, "seed": int64(seed), "steps": out.StepLog})
+	}
+	if out.Result.Err != nil && !out.Result.MonitorErr {
+		r.Report("C08:sim:archetype-error", out.Result.Err.Error(), wit)
+	}
+	if capture && len(out.States) > 1 {
+		scratch := common.Scratch("c08r")
+		defer os.RemoveAll(scratch)
+		if v := rs.Validate(scratch, out.States, 8*time.Minute); v.Kind == "step" || v.Kind == "invariant" {
+			r.Report(key, fmt.Sprintf("TLC again: %s (step %d, invariant %s)", v.Kind, v.RejectedAt, v.Invariant), wit)
+		}
+	}
+	r.FinishReplay(key)
 }
